@@ -40,12 +40,22 @@ import (
 // ---- scenario ----
 
 type stxn struct {
-	From       string `json:"from"`                  // "owner" | account name ("a1".."a9") | "m1".. (registered miner i)
-	SC         string `json:"sc"`                    // faucet | miner | storage | vesting | zcn
-	Fn         string `json:"fn"`                    // contract function
-	Input      string `json:"input"`                 // raw JSON input
-	Value      uint64 `json:"value,omitempty"`       // tokens sent with the call
-	TimeOffset int64  `json:"time_offset,omitempty"` // creation date = scenario base time + offset (seconds)
+	From       string    `json:"from"`                  // "owner" | account name ("a1".."a9") | "m1".. (registered miner i)
+	SC         string    `json:"sc"`                    // faucet | miner | storage | vesting | zcn
+	Fn         string    `json:"fn"`                    // contract function
+	Input      string    `json:"input"`                 // raw JSON input
+	Value      uint64    `json:"value,omitempty"`       // tokens sent with the call
+	TimeOffset int64     `json:"time_offset,omitempty"` // creation date = scenario base time + offset (seconds)
+	Mint       *mintSpec `json:"mint,omitempty"`        // zcnsc mint: the payload is built and signed by the worker
+}
+
+// zcnsc mint of Amount to the sender with the given nonce, signed by the listed authorizers (1-based).
+// BadSig: the signatures are made over another nonce, so the call fails - after it has recorded the nonce.
+type mintSpec struct {
+	Nonce   int64  `json:"nonce"`
+	Amount  uint64 `json:"amount"`
+	Signers []int  `json:"signers"`
+	BadSig  bool   `json:"bad_sig,omitempty"`
 }
 
 type sblock struct {
@@ -53,12 +63,13 @@ type sblock struct {
 }
 
 type scenario struct {
-	Name     string   `json:"name"`
-	Miners   int      `json:"miners,omitempty"` // miners/sharders registered before block 1
-	Sharders int      `json:"sharders,omitempty"`
-	BaseTime int64    `json:"base_time,omitempty"` // 0: 1700000000
-	Cold     bool     `json:"cold,omitempty"`      // fresh state cache for every block
-	Blocks   []sblock `json:"blocks"`
+	Name        string   `json:"name"`
+	Miners      int      `json:"miners,omitempty"` // miners/sharders registered before block 1
+	Sharders    int      `json:"sharders,omitempty"`
+	Authorizers int      `json:"authorizers,omitempty"` // zcnsc authorizers registered (by the owner) before block 1
+	BaseTime    int64    `json:"base_time,omitempty"`   // 0: 1700000000
+	Cold        bool     `json:"cold,omitempty"`        // fresh state cache for every block
+	Blocks      []sblock `json:"blocks"`
 }
 
 // ---- result ----
@@ -113,7 +124,7 @@ func runWorker(scn scenario) result {
 	smartcontract.ContractMap[vestingsc.ADDRESS] = vestingsc.NewVestingSmartContract()
 	smartcontract.ContractMap[zcnsc.ADDRESS] = zcnsc.NewZCNSmartContract()
 	c := chain.Provider().(*chain.Chain)
-	cfg := chain.NewConfigImpl(&chain.ConfigData{IsFeeEnabled: false, SmartContractTimeout: time.Minute})
+	cfg := chain.NewConfigImpl(&chain.ConfigData{IsFeeEnabled: false, SmartContractTimeout: time.Minute, ClientSignatureScheme: "bls0chain"})
 	c.ChainConfig = cfg
 	config.Configuration().ChainConfig = cfg
 	c.EventDb = &event.EventDb{}
@@ -129,6 +140,10 @@ func runWorker(scn scenario) result {
 	}
 	for j := 0; j < scn.Sharders; j++ {
 		sharders = append(sharders, mkNode(51+j, 9+j))
+	}
+	var auths []*nd
+	for a := 0; a < scn.Authorizers; a++ {
+		auths = append(auths, mkNode(71+a, 5+a))
 	}
 	mb := block.NewMagicBlock()
 	mb.Miners, mb.Sharders = pool(node.NodeTypeMiner, miners), pool(node.NodeTypeSharder, sharders)
@@ -155,6 +170,7 @@ func runWorker(scn scenario) result {
 			setBalance(ctx, m.id, 1000_0000000000)
 		}
 		setBalance(ctx, faucetsc.ADDRESS, 1000000_0000000000)
+		setBalance(ctx, zcnsc.ADDRESS, 1000000_0000000000) // mint pays out of the contract address
 	}
 	nonce := map[string]int64{}
 	scache := statecache.NewStateCache()
@@ -184,6 +200,23 @@ func runWorker(scn scenario) result {
 		txn.SmartContractData = &transaction.SmartContractData{}
 		txn.CreationDate = common.Timestamp(base + t.TimeOffset)
 		in := t.Input
+		if t.Mint != nil {
+			p := &zcnsc.MintPayload{EthereumTxnID: fmt.Sprintf("0xeth%d", t.Mint.Nonce), Amount: currency.Coin(t.Mint.Amount), Nonce: t.Mint.Nonce, ReceivingClientID: from}
+			toSign := p.GetStringToSign()
+			if t.Mint.BadSig {
+				q := *p
+				q.Nonce = p.Nonce + 1000000
+				toSign = q.GetStringToSign()
+			}
+			for _, a := range t.Mint.Signers {
+				if a >= 1 && a <= len(auths) {
+					sg, err := auths[a-1].sign(toSign)
+					must(err)
+					p.Signatures = append(p.Signatures, &zcnsc.AuthorizerSignature{ID: auths[a-1].id, Signature: sg})
+				}
+			}
+			in = string(p.Encode())
+		}
 		if in == "" {
 			in = "null"
 		}
@@ -226,10 +259,17 @@ func runWorker(scn scenario) result {
 				panic("add_sharder: " + r.Err + r.Output)
 			}
 		}
+		for _, a := range auths {
+			input, _ := json.Marshal(map[string]interface{}{"public_key": a.pub, "url": fmt.Sprintf("http://auth%d", a.tok),
+				"stake_pool_settings": map[string]interface{}{"delegate_wallet": encryption.Hash("dw" + a.id), "num_delegates": 5, "service_charge": 0.1}})
+			if r := exec(b, bc, stxn{From: "owner", SC: "zcn", Fn: "add-authorizer", Input: string(input)}); !r.Applied || r.Status != transaction.TxnSuccess {
+				panic("add-authorizer: " + r.Err + r.Output)
+			}
+		}
 		bc.Commit()
 		prevHash = b.Hash
 	}
-	if len(miners)+len(sharders) > 0 {
+	if len(miners)+len(sharders)+len(auths) > 0 {
 		regBlock()
 	}
 	for bi, sb := range scn.Blocks {
